@@ -493,7 +493,7 @@ _PASSTHROUGH: dict = {}
 _CONSTMODEL: dict = {}
 _MIXMODEL: dict = {}
 
-MIX_KINDS = ["plain", "if_capture", "loop_capture", "if_const_only"]
+MIX_KINDS = ["plain", "if_capture", "loop_capture", "if_const_only", "sampling", "sampling"]
 
 
 def mix_model(kind: str):
@@ -523,6 +523,13 @@ def mix_model(kind: str):
         then_g = oh.make_graph([oh.make_node("Identity", ["t"], ["then_out"])], "then", [], [vi("then_out")])
         else_g = oh.make_graph([oh.make_node("Identity", ["c"], ["else_out"])], "else", [], [vi("else_out")])
         nodes.append(oh.make_node("If", ["cond"], ["y2"], then_branch=then_g, else_branch=else_g))
+        outs.append(vi("y2"))
+    elif kind == "sampling":
+        # a SAMPLING operator inside the inlined model: y2 = c + cast(10 * RandomUniformLike(cast(c))) - no constant
+        nodes += [oh.make_node("Cast", ["c"], ["cf"], to=onnx.TensorProto.FLOAT), oh.make_node("RandomUniformLike", ["cf"], ["r"]),
+                  oh.make_node("Constant", [], ["ten"], value=oh.make_tensor("ten", onnx.TensorProto.FLOAT, [], [10.0])),
+                  oh.make_node("Mul", ["r", "ten"], ["r10"]), oh.make_node("Cast", ["r10"], ["ri"], to=I64),
+                  oh.make_node("Add", ["c", "ri"], ["y2pre"]), oh.make_node("Add", ["y2pre", "x"], ["y2"])]
         outs.append(vi("y2"))
     elif kind == "loop_capture":
         body = oh.make_graph([oh.make_node("Add", ["v", "x"], ["v_out"]), oh.make_node("Identity", ["cond_in"], ["cond_out"])], "body",
@@ -1403,7 +1410,8 @@ def record_history(steps: list, sel: str, script=None, at: str = "run") -> dict:
                     # harness's own means (operator list from the ONNX documentation, node.subgraphs, a scan of the
                     # inlined ModelProto); the MODEL combines them (`Traits.skips`, `propagates`)
                     if type(node).__name__ == "_Inline":
-                        h.update({"k": "inline", "gnames": [o.name for o in node.graph.output], "sampling": False, "hasSubgraph": False,
+                        h.update({"k": "inline", "gnames": [o.name for o in node.graph.output], "hasSubgraph": False,
+                                  "sampling": any(n.op_type in NON_DETERMINISTIC and n.domain in ("", "ai.onnx") for n in node.model.graph.node),
                                   "inlineControlFlow": model_has_control_flow(node.model)})
                     else:
                         h.update({"k": "standard", "sampling": schema_non_deterministic(node), "inlineControlFlow": False,
